@@ -1,9 +1,9 @@
-\* generated by hand-written template (see harness/props/c04.notes.md); deviations on = LogicalReturnsOperand, BoolCastTruncates, FloatToUnsignedRejectsNeg, FloatCondNotFolded, UnevaluatedOperandFolded, NoDivisionGuard, CondSameTypeNoPromotion
+\* deviations on = LogicalReturnsOperand, BoolCastTruncates, FloatToUnsignedRejectsNeg, FloatCondNotFolded, UnevaluatedOperandFolded, NoDivisionGuard, CondSameTypeNoPromotion, BareAddressMinusRejected   (template: harness/props/c04.notes.md)
 SPECIFICATION Spec
 CONSTANTS
   Real = TRUE
   CharSigned = TRUE
-  Families = {"binsame", "binmix", "fbin", "un", "cast", "condfew", "unev", "nest"}
+  Families = {"binsame", "binmix", "fbin", "un", "cast", "condfew", "unev", "nest", "num", "leaf", "addr"}
   Level = 2
   Dev_LogicalReturnsOperand = TRUE
   Dev_BoolCastTruncates = TRUE
@@ -12,5 +12,6 @@ CONSTANTS
   Dev_UnevaluatedOperandFolded = TRUE
   Dev_NoDivisionGuard = TRUE
   Dev_CondSameTypeNoPromotion = TRUE
+  Dev_BareAddressMinusRejected = TRUE
 INVARIANTS Inv_Emit
 CHECK_DEADLOCK FALSE
